@@ -10,7 +10,8 @@ def run(ctx):
     ctx.rule = ("Fonts (3 / 40 / 300 glyphs, all encodings), metrics (up to 200 glyphs, four ligatures on every third glyph) "
                 "and input files (the corpus plus a file defining five CMaps) are written / read R times in each of P "
                 "separate processes (fresh map hash seeds); every observation (call, input, process, repetition, digest) is an "
-                "event; TLC validates that every digest equals the first digest of its (call, input) group "
+                "event; three fonts (one of them uses the package's StandardEncoding table itself as its encoding) are written before "
+                "and after each other and the table is digested before and after; TLC validates that every digest equals the first digest of its (call, input) group "
                 "(Determinism!Consistent via TraceDeterminism). Determinism.tla also contains the emitter model: TLC shows "
                 "that a sorting emission loop has one output and a non-sorting one several. distinct = (call, input) groups.")
     ctx.assumptions = ["with k unordered entries a non-sorting loop escapes R repetitions with probability (1/k!)^(R-1)"]
